@@ -372,7 +372,24 @@ func (e *Engine) checkC14() []*Obligation {
 		}
 		// newIODelegate(in, out): the primary input is hashed as the root sum by TryCache; the
 		// output path only selects the destination (the file type derived from it is a payload member)
+		// The delegate itself is a covered source (what is read through it is the hashed input); the
+		// path variables may be read directly, but a value computed from the output path (the file
+		// type detected from its extension) is covered only if the payload depends on the path.
+		allowedSrc := map[types.Object]bool{}
 		ast.Inspect(fd.Body, func(n ast.Node) bool {
+			if as, ok := n.(*ast.AssignStmt); ok && len(as.Rhs) == 1 {
+				if call, ok := as.Rhs[0].(*ast.CallExpr); ok {
+					if id, ok := call.Fun.(*ast.Ident); ok && id.Name == "newIODelegate" {
+						for _, l := range as.Lhs {
+							if lid, ok := l.(*ast.Ident); ok {
+								if o := info.ObjectOf(lid); o != nil {
+									allowedSrc[o] = true
+								}
+							}
+						}
+					}
+				}
+			}
 			if call, ok := n.(*ast.CallExpr); ok {
 				if id, ok := call.Fun.(*ast.Ident); ok && id.Name == "newIODelegate" {
 					for _, a := range call.Args {
@@ -411,7 +428,7 @@ func (e *Engine) checkC14() []*Obligation {
 		}
 		var covered func(o types.Object, depth int) bool
 		covered = func(o types.Object, depth int) bool {
-			if allowed[o.Name()] || inPayload[o] {
+			if inPayload[o] || allowedSrc[o] || (allowed[o.Name()] && (depth == 0 || o.Name() == "nocache")) {
 				return true
 			}
 			if _, isOpt := optVars[o]; isOpt {
